@@ -179,6 +179,7 @@ def frac_of(v):
 
 
 BINOPS = {"add": "+", "sub": "-", "mul": "*", "div": "/"}
+BITOPS = {"and": "bitand_", "shl": "shl_", "shr": "shr_", "rem": "rem_"}
 FUN1 = {"ln": "ln", "exp": "exp", "sqrt": "sqrt", "tan": "tan", "abs": "Abs", "floor": "floor", "ceil": "ceiling"}
 
 
@@ -270,6 +271,8 @@ class Namer:
             if not isinstance(v, (int, float)):
                 raise NoForm("constant %r" % (v,))
             return frac_of(v)
+        if k == "agg" and t[1] == "tuple":
+            return "tup_(%s)" % ", ".join(self.sym(x) for x in t[3:])
         if k == "agg" and isinstance(t[1], str) and t[1].startswith("adt:"):
             adt = t[1][4:]
             if adt == "Result" and t[2] == "Err":
@@ -295,6 +298,8 @@ class Namer:
             return self.rename.get(fp, fp)
         if k in BINOPS:
             return "((%s) %s (%s))" % (self.sym(t[1]), BINOPS[k], self.sym(t[2]))
+        if k in BITOPS:
+            return "%s(%s, %s)" % (BITOPS[k], self.sym(t[1]), self.sym(t[2]))
         if k == "neg":
             return "(-(%s))" % self.sym(t[1])
         if k == "call":
@@ -433,12 +438,16 @@ def run_specs(chk, F, specs, floor_n):
                 continue
             nfun += 1
             where = span_str(inst.get("span"))
+            before_ = len(jobs)
             if spec["kind"] == "ctor":
                 build_ctor_jobs(chk, F, inst, spec, key, where, jobs, ctx)
             elif spec["kind"] == "ts":
                 build_ts_jobs(chk, F, inst, spec, key, where, jobs, ctx)
             else:
                 build_alg_jobs(chk, F, inst, spec, key, where, jobs, ctx)
+            for j_ in jobs[before_:]:
+                if spec.get("subs"):
+                    j_["subs"] = spec["subs"]          # domain of the parameters made explicit (e.g. N = K + n + s, s > 0)
     chk.floor("sampler / constructor instances compared with their reference", nfun, floor_n)
     if not jobs:
         return
@@ -512,6 +521,9 @@ def compile_rules(rules, let):
             elif cond.startswith("call "):
                 m_ = re.match(r"call\s+(\w+)\((.*)\)\s*$", cond)
                 a = ("call:" + m_.group(1), subst_let(m_.group(2).strip(), let), "1")
+            elif cond.startswith("variant "):
+                _, place_, vname_ = cond.split()
+                a = ("variant", place_, vname_)
             else:
                 kind, x, y = parse_rule_cond(cond)
                 a = (kind if kind == "eq" else "lt", subst_let(x, let), subst_let(y, let))
@@ -520,6 +532,36 @@ def compile_rules(rules, let):
             out.append((atoms.index(a), outcome))
         lists[name] = out
     return atoms, lists
+
+
+def spec_strictness(rules, let):
+    """(A, B) -> True for `A < B`, False for `A <= B` in the reference's decision lists (only matters for integer comparisons)."""
+    if isinstance(rules, list):
+        rules = {"main": rules}
+    out = {}
+    for lst in rules.values():
+        for cond, _ in lst:
+            if cond is None or cond.startswith(("flag ", "call ", "variant ")):
+                continue
+            kind, x, y = parse_rule_cond(cond)
+            if kind != "eq":
+                out[(subst_let(x, let), subst_let(y, let))] = kind == "lt"
+    return out
+
+
+def int_forms(spec_atoms, sstrict, want_kind):
+    """Accepted forms for an integer comparison `d < 0`: same orientation first, then the negated (flipped) orientation."""
+    accepted, back = [], []
+    for k, (k2, xa, xb) in enumerate(spec_atoms):
+        if k2 == want_kind:
+            accepted.append("(%s) - (%s) - (%d)" % (xa, xb, 0 if sstrict.get((xa, xb), True) else 1))
+            back.append((k, False))
+    for k, (k2, xa, xb) in enumerate(spec_atoms):
+        if k2 == want_kind:
+            # not (xa < xb) is xb < xa + 1; not (xa <= xb) is xb < xa
+            accepted.append("(%s) - (%s) - (%d)" % (xb, xa, 1 if sstrict.get((xa, xb), True) else 0))
+            back.append((k, True))
+    return accepted, back
 
 
 def spec_eval(lists, assign, let):
@@ -663,6 +705,13 @@ def build_case(chk, F, inst, spec, key, where, jobs, ctx, summ, paths):
         want_kind = "eq" if kind == "eq" else "lt"
         accepted, back = [], []
         inf_side = "oo" in (sa_, sb_) or "(-oo)" in (sa_, sb_)
+        if want_kind == "lt" and not inf_side and summ.get("atom_int", [False] * (i + 1))[i]:
+            accepted, back = int_forms(c["spec_atoms"], spec_strictness(spec["rules"], let), want_kind)
+            dterm = "(%s) - (%s) - (%d)" % (sa_, sb_, 0 if strict else 1)
+            jid = "%s|atom|%d" % (key, i)
+            jobs.append({"id": jid, "symbols": spec["symbols"], "term": dterm, "accepted": accepted or ["0*0 + 123456789"], "relative": True})
+            c["atoms"][i] = (jid, kind, dterm, back)
+            continue
         for k, (k2, xa, xb) in enumerate(c["spec_atoms"]):
             if k2 != want_kind:
                 continue
@@ -693,6 +742,34 @@ def build_case(chk, F, inst, spec, key, where, jobs, ctx, summ, paths):
             jid = "%s|ret|%d" % (key, pi_)
             jobs.append({"id": jid, "symbols": spec["symbols"], "term": term, "accepted": rets, "relative": True})
             c["rets"][pi_] = (jid, term)
+
+
+def path_variants(nm, F, p):
+    """{place name: variant name} decided by the enum matches on a path (places inside *self)."""
+    out = {}
+    for lit in p["lits"]:
+        if not (lit and lit[0] == "variant" and isinstance(lit[2], int)):
+            continue
+        place, idx = lit[1], lit[2]
+        fp = nm.field_path(place)
+        if fp is None:
+            continue
+        # walk the type to the enum
+        steps, cur = [], place
+        while isinstance(cur, tuple) and cur and cur[0] in ("field", "proj"):
+            if cur[0] == "field":
+                steps.append(cur[2])
+            cur = cur[1]
+        ty = nm.self_ty
+        ok = True
+        for x in reversed(steps):
+            if ty is None or ty["k"] != "adt" or not ty["variants"] or not isinstance(x, int) or x >= len(ty["variants"][0]["fields"]):
+                ok = False
+                break
+            ty = F.types[ty["variants"][0]["fields"][x]["ty"]]
+        if ok and ty and ty["k"] == "adt" and idx < len(ty["variants"]):
+            out[fp] = ty["variants"][idx]["name"]
+    return out
 
 
 def parse_goto(outcome):
@@ -759,6 +836,8 @@ def spec_paths(lists, nodes, start, let, limit=20000):
                 known_true = True
             if outcome.startswith("return "):
                 out.append((cur, ("return", frozenset(subst_let(alt.strip(), let) for alt in outcome[len("return "):].split(" || ")))))
+            elif outcome == "unspecified":
+                out.append((cur, ("unspecified",)))
             elif outcome == "continue":
                 out.append((cur, ("continue",)))
             else:
@@ -786,6 +865,19 @@ def build_ts_jobs(chk, F, inst, spec, key, where, jobs, ctx):
     cutname = dict(zip(summ["cuts"], names))
     c["cutname"] = cutname
     paths = [p for p in summ["paths"] if not _is_try_break(p) and not _contradictory(p)]
+    # parts of the function the reference does not describe: whole cut points, or paths under a given enum variant
+    nm0 = Namer(F, inst, spec, [])
+    skipn = set(spec.get("unspecified_nodes", []))
+    skipv = spec.get("skip_variants", {})
+    kept = []
+    for p in paths:
+        if cutname.get(p.get("start")) in skipn:
+            continue
+        pv = path_variants(nm0, F, p)
+        if any(pv.get(place) in names_ for place, names_ in skipv.items()):
+            continue
+        kept.append(p)
+    paths = kept
     c["paths"] = paths
     draws = collect_draws({"atoms": [summ["atoms"][i] for i in used_atoms(paths)],
                            "paths": [{"outcome": ("return", tuple(p["outcome"][2].values())) if p["outcome"][0] == "goto" else p["outcome"], "lits": p["lits"]} for p in paths]})
@@ -797,8 +889,12 @@ def build_ts_jobs(chk, F, inst, spec, key, where, jobs, ctx):
     c["spec_atoms"], c["lists"] = compile_rules(spec["rules"], let)
     # all spec outcomes
     rets, upd_forms = set(), {}
+    c["nm"] = nm
+    c["F"] = F
     for lst in c["lists"].values():
         for _, o in lst:
+            if o == "unspecified":
+                continue
             if o.startswith("return "):
                 rets |= {subst_let(alt.strip(), let) for alt in o[len("return "):].split(" || ")}
             else:
@@ -844,9 +940,14 @@ def build_ts_jobs(chk, F, inst, spec, key, where, jobs, ctx):
             if k2 == want_kind:
                 accepted.append("(%s) - (%s)" % (xb, xa))
                 back.append((k, True))
+        dterm = "(%s) - (%s)" % (sa_, sb_)
+        if want_kind == "lt" and summ.get("atom_int", [False] * (i + 1))[i]:
+            # integers: strictness is part of the test (`x <= k` is `x < k + 1`)
+            accepted, back = int_forms(c["spec_atoms"], spec_strictness(spec["rules"], let), want_kind)
+            dterm = "(%s) - (%s) - (%d)" % (sa_, sb_, 0 if strict else 1)
         jid = "%s|atom|%d" % (key, i)
-        jobs.append({"id": jid, "symbols": spec["symbols"], "term": "(%s) - (%s)" % (sa_, sb_), "accepted": accepted or ["0*0 + 123456789"], "relative": True})
-        c["atoms"][i] = (jid, kind, "(%s) - (%s)" % (sa_, sb_), back)
+        jobs.append({"id": jid, "symbols": spec["symbols"], "term": dterm, "accepted": accepted or ["0*0 + 123456789"], "relative": True})
+        c["atoms"][i] = (jid, kind, dterm, back)
     for pi_, p in enumerate(paths):
         o = p["outcome"]
         try:
@@ -875,7 +976,7 @@ def judge_ts(chk, key, c, res):
         return 1
     summ, paths, nodes, let = c["summ"], c["paths"], spec["nodes"], c["let"]
     und = list(c["undecided"])
-    conds = [("flag " + a[1]) if a[0] == "flag" else ("%s(%s)" % (a[0][5:], a[1]) if a[0].startswith("call:") else "%s %s %s" % (a[1], "==" if a[0] == "eq" else "<", a[2])) for a in c["spec_atoms"]]
+    conds = [("flag " + a[1]) if a[0] == "flag" else ("%s is %s" % (a[1], a[2]) if a[0] == "variant" else ("%s(%s)" % (a[0][5:], a[1]) if a[0].startswith("call:") else "%s %s %s" % (a[1], "==" if a[0] == "eq" else "<", a[2]))) for a in c["spec_atoms"]]
     amap = {}
     for i, (jid, kind, dterm, back) in c["atoms"].items():
         if jid is None:
@@ -938,10 +1039,20 @@ def judge_ts(chk, key, c, res):
                 continue                # infeasible implementation path
             o = p["outcome"]
             matched = False
+            ivars = path_variants(c["nm"], c["F"], p)
             for slits, so in sps:
                 if any(ilits.get(a_) is not None and ilits[a_] != t_ for a_, t_ in slits.items()):
                     continue            # not jointly satisfiable
+                clash = False
+                for a_, t_ in slits.items():
+                    sa_ = c["spec_atoms"][a_]
+                    if sa_[0] == "variant" and sa_[1] in ivars and (ivars[sa_[1]] == sa_[2]) != t_:
+                        clash = True
+                if clash:
+                    continue
                 matched = True
+                if so[0] == "unspecified":
+                    continue
                 same = False
                 if o[0] == "return" and so[0] == "return":
                     same = rform.get(pi_) in so[1]
